@@ -147,12 +147,37 @@ def sig_c22_interrupted_stale_output_removal(job, ops):
 
 SIGNATURES["C22"] = [("event-panic-interrupts-stale-output-removal", sig_c22_interrupted_stale_output_removal)]
 
+def sig_c12_backdate_after_cycle(job, ops):
+    """F10: the debug assertion "backdate violation" fires for a function that depends on former members of a
+    fixpoint cycle: the members' `changed_at` was set conservatively while they were computed inside the cycle
+    (cycle memos are never backdated); after an input write the cycle no longer forms, the members are recomputed
+    with older stamps, and a dependent that produces the same value gets an older `changed_at` than before.
+    Signature: the program has fixpoint functions, a cycle was finalized (DidFinalizeCycle) in an earlier
+    operation, and the failing operation iterates no cycle."""
+    if not any(f["kind"] in ("fix", "fixjoin") for f in job["prog"]["fns"]):
+        return False
+    finalized = False
+    for op in ops:
+        fails = any(e.get("e") == "ret" and e.get("ok") == 0 and "returned the same value, but the previous execution changed at" in e.get("msg", "") for e in op)
+        if fails and finalized and not any(e.get("e") == "wic" for e in op):
+            return True
+        if any(e.get("e") == "dfc" for e in op):
+            finalized = True
+    return False
+
+
+SIGNATURES["C12"] = [("backdate-assertion-for-dependents-of-former-cycle-members", sig_c12_backdate_after_cycle)]
+
 # C18 requires the single-threaded results of C12/C13 under concurrency: the same two findings show there
-SIGNATURES["C18"] = SIGNATURES["C13"]
+SIGNATURES["C18"] = SIGNATURES["C13"] + SIGNATURES["C12"]
+# the same assertion can fire in the other families that contain fixpoint functions
+SIGNATURES["C14"] = SIGNATURES["C12"]
+SIGNATURES["C15"] = SIGNATURES["C12"]
 
 
 # signatures that identify the violation itself (its detail must carry the marker), not the whole job
 DETAIL_MARKER = {"function-ingredient-not-initialised-after-restore": "cannot be accessed before calling `init`",
+                 "backdate-assertion-for-dependents-of-former-cycle-members": "returned the same value, but the previous execution changed at",
                  "event-panic-interrupts-stale-output-removal": ("cannot delete write-locked id", "cannot delete read-locked id",
                                                                  "two concurrent writers to", "write lock taken")}
 
